@@ -147,7 +147,7 @@ def k_parsers(p0: int, v0: str, p1: int, c1: int, p2: int, c2: int, pos: int) ->
 # --------------------------------------------------------------------------- W
 TDK = ['home-on-root', 'home-own-volume', 'top', 'alt', 'trash-dir-opt', 'trash-dir-opt-through-a-link-on-another-volume']
 SHAPES = ['abs', 'rel', 'rel-escaped', 'abs-escaped', 'dup-path', 'dup-date', 'extra-keys', 'no-header', 'crlf', 'trailing-space',
-          'rel-dotdot', 'plus-sign', 'date-first', 'dup-date-first-malformed', 'dup-date-first-with-offset']
+          'rel-dotdot', 'plus-sign', 'date-first', 'dup-date-first-malformed', 'dup-date-first-with-offset', 'cr-only']
 NSH = len(SHAPES)
 NOW = '2020-06-15T12:00:00'
 
@@ -182,7 +182,11 @@ def shape(sk, base_abs, base_rel):
         return 'Path=%s\nDeletionDate=%s\n' % (p, d), p, d
     if k == 'crlf':
         p = base_rel + '/n'
-        return '[Trash Info]\r\nPath=%s\r\nDeletionDate=%s\r\n' % (p, d), p + '\r', None
+        # (every reader opens the file in text mode: universal newlines, so CRLF and lone CR end a line)
+        return '[Trash Info]\r\nPath=%s\r\nDeletionDate=%s\r\n' % (p, d), p, d
+    if k == 'cr-only':
+        p = base_rel + '/n'
+        return '[Trash Info]\rPath=%s\rDeletionDate=%s\r' % (p, d), p, d
     if k == 'trailing-space':
         p = base_rel + '/n '
         return '[Trash Info]\nPath=%s\nDeletionDate=%s\n' % (p, d), p, d
@@ -320,5 +324,5 @@ def obligations(tier):
            partitions=[(a, b, 1 if tier == 'quick' else 4) for a in range(9) for b in range(3)]),
         CH('W_dirkind_x_shape', MOD, 'w_main', timeout=600, engine='W', regime='selector',
            encodes=K.LIST_FUNCS + K.RESTORE_FUNCS + K.RM_FUNCS + K.EMPTY_FUNCS, stubs=K.STUBS,
-           bounds='6 kinds of trash directory (incl. --trash-dir through a symlink on another volume) x 15 content shapes; per case 8 command runs'),
+           bounds='6 kinds of trash directory (incl. --trash-dir through a symlink on another volume) x 16 content shapes; per case 8 command runs'),
     ]
